@@ -44,6 +44,7 @@ theorem stripWs_dropSep {sep : Cps} (hs : allWs sep = true) (l : List Cps) :
 
 def DItemOk (p q : Prefs) (lv lw : Nat) : DItem → Prop
   | .prop pr => pr.mq = false ∧ ObjOk p q lv lw pr.value
+  | .urule r => r.keyworded = true
   | _ => True
 
 def DItemsOk (p q : Prefs) (lv lw : Nat) (items : List DItem) : Prop := ∀ it ∈ items, DItemOk p q lv lw it
@@ -85,8 +86,14 @@ theorem declHere_layout (lv lw : Nat) {sep sep' : Cps} (hs : allWs sep = true) (
     have hu := ExRel.of_map (doURule_layout hp hq h lv lw r)
     simp only [declHere]
     cases e1 : doURule p lv r <;> cases e2 : doURule q lw r <;> rw [e1, e2] at hu <;> simp only [ExRel] at hu
-    · simp [ExRel, hu]
-    · simp [pure, Except.pure, ExRel, stripWs_append, stripWs_of_allWs hs, stripWs_of_allWs hs', hu]
+    · simp [ExRel]
+    · rename_i t t'
+      have he : t.isEmpty = t'.isEmpty :=
+        isEmpty_eq_of_solid (doURule_solid hp lv r hit t e1) (doURule_solid hq lw r hit t' e2) hu
+      simp only [pure, Except.pure, ExRel, he]
+      split
+      · simp [stripWs_append, stripWs_of_allWs hs, stripWs_of_allWs hs', hu]
+      · rfl
   | other s =>
     simp [declHere, pure, Except.pure, ExRel, stripWs_append, stripWs_of_allWs hs, stripWs_of_allWs hs']
 
